@@ -2,6 +2,6 @@
 //! libFuzzer target for C10: raw bytes -> case (vharness::fuzzdec::qcase) -> the check's own oracle.
 use libfuzzer_sys::fuzz_target;
 fuzz_target!(|data: &[u8]| {
-    let case = vharness::fuzzdec::qcase(data);
+    let case = vharness::props::c10::Case::Machine(vharness::fuzzdec::qcase(data));
     vharness::runner::fuzz_case::<vharness::props::c10::C10>(&case);
 });
